@@ -2,6 +2,7 @@ import AtreeProofs.WorldInv
 import AtreeProofs.ArrayInv
 import AtreeProofs.MapInv
 import AtreeProofs.MapLemmas
+import AtreeProofs.Map.Dict
 /-
   The GLOBAL invariant of a World of nested containers (C10): `WorldOk`.  DEFINITIONS ONLY — part of
   the reviewed statement of the property theorems of `AtreeProofs/Props/C10W.lean`.
@@ -25,7 +26,8 @@ import AtreeProofs.MapLemmas
   * `CRank` — the "is an element of" relation is acyclic (a rank function decreases from child to
     parent);
   * `RefsBelow` — no element refers to a slab ID that has not been allocated yet;
-    `idxLive` — `mutableElementIndex` only records containers.
+    `idxLive` / `hinfoLive` — `mutableElementIndex` only exists for arrays and only records
+    containers; a closure points at a container.
   The generalised form `WorldOkGen` (one container whose parent slot is allowed to be out of date,
   a set of containers whose bookkeeping is pending) is the induction invariant of the proofs; the
   reader only needs `WorldOk = WorldOkGen … none (fun _ => False)`.
@@ -154,6 +156,14 @@ def RefsBelow (w : World) (ctr : Nat) : Prop :=
 def InlBand (w : World) : Prop :=
   ∀ x c, w.cont? x = some c → c.isInlined = true → c.rootSize ≤ w.T
 
+/-- `mutableElementIndex` only exists for arrays and only records containers -/
+def IdxLive (w : World) : Prop :=
+  ∀ p x (i : Nat), AList.find? (w.idxOf p) x = some i → (w.cont? x).isSome ∧ ∃ a, w.cont? p = some (.arr a)
+
+/-- a closure points at a live container -/
+def HinfoLive (w : World) : Prop :=
+  ∀ x hi, AList.find? w.hinfo x = some hi → (w.cont? hi.parent).isSome
+
 /-- The induction invariant; `WorldOk` is the instance `stale = none`, `O = ∅`. -/
 structure WorldOkGen (D : SlabID → DigestFn 4) (rank : SlabID → Nat) (stale : Option SlabID)
     (O : SlabID → Prop) (w : World) (ctr : Nat) : Prop where
@@ -169,7 +179,8 @@ structure WorldOkGen (D : SlabID → DigestFn 4) (rank : SlabID → Nat) (stale 
   closure : ClosureOk D w
   rank    : CRank rank w
   below   : RefsBelow w ctr
-  idxLive : ∀ p x (i : Nat), AList.find? (w.idxOf p) x = some i → (w.cont? x).isSome
+  idxLive : IdxLive w
+  hinfoLive : HinfoLive w
 
 /-- THE GLOBAL INVARIANT of nested containers (relative to the digest functions of the maps and the
     allocation counter). -/
@@ -204,6 +215,57 @@ def WValOk (w : World) (p : SlabID) (lim : Nat) : WVal → Prop
   | .plain e => ValueOk e ∧ e.size ≤ lim
   | .child v wrap => (w.cont? v).isSome ∧ (∀ q, ¬ Holds w q v) ∧ ¬ Anc w v p ∧
       slabIDStorableSize + 2 * wrap ≤ lim
+
+/-! ### What the operations did (conclusions of the operation theorems) -/
+
+/-- every container other than `p` keeps its signature (kind, keys, payloads): the operation on `p`
+    changed no other container's content (only, possibly, the form of some of them) -/
+def SigFrame (w w' : World) (p : SlabID) : Prop :=
+  ∀ z, z ≠ p → (w'.cont? z).map Cont.sig = (w.cont? z).map Cont.sig
+
+/-- the container handed back by an operation: standalone, unreferenced, same data -/
+def HandedBack (w w' : World) (old : Elem) : Prop :=
+  ∀ x c, old.pay = .ref x → w.cont? x = some c →
+    ∃ c', w'.cont? x = some c' ∧ c'.isInlined = false ∧ c'.vid = c.vid ∧ c'.storedElems = c.storedElems ∧
+      ∀ q, ¬ Holds w' q x
+
+/-- what `arrInsert` did to the target container: `List.insertIdx` of the stored element (the plain
+    value itself, or a reference to the child with the size of the child's current form; the handle
+    of the inserted child is current) -/
+def InsertedAt (w w' : World) (p : SlabID) (i : Nat) (v : WVal) : Prop :=
+  ∃ a a' e, w.cont? p = some (.arr a) ∧ w'.cont? p = some (.arr a') ∧ i ≤ a.toList.length ∧
+    a'.toList = a.toList.insertIdx i e ∧
+    (∀ e0, v = .plain e0 → e = e0) ∧
+    (∀ x wr, v = .child x wr → e.pay = .ref x ∧ HandleOk w' x ∧
+      ∃ c, w'.cont? x = some c ∧ e.size = slotSize c wr)
+
+/-- what `arrSet` did: `List.set`, the old element handed back -/
+def SetAt (w w' : World) (p : SlabID) (i : Nat) (v : WVal) (old' : Elem) : Prop :=
+  ∃ a a' old e, w.cont? p = some (.arr a) ∧ w'.cont? p = some (.arr a') ∧ a.toList[i]? = some old ∧
+    a'.toList = a.toList.set i e ∧ old'.pay = old.pay ∧ HandedBack w w' old ∧
+    (∀ e0, v = .plain e0 → e = e0) ∧
+    (∀ x wr, v = .child x wr → e.pay = .ref x ∧ HandleOk w' x ∧
+      ∃ c, w'.cont? x = some c ∧ e.size = slotSize c wr)
+
+/-- what `arrRemove` did: `List.eraseIdx`, the old element handed back -/
+def RemovedAt (w w' : World) (p : SlabID) (i : Nat) (old' : Elem) : Prop :=
+  ∃ a a' old, w.cont? p = some (.arr a) ∧ w'.cont? p = some (.arr a') ∧ a.toList[i]? = some old ∧
+    a'.toList = a.toList.eraseIdx i ∧ old'.pay = old.pay ∧ HandedBack w w' old
+
+/-- what `mapSet` did: the zipper effect `SetEffect` on the pair list, the old value handed back -/
+def MapSetAt (w w' : World) (p : SlabID) (k : MKey) (v : WVal) (old' : Option Elem) : Prop :=
+  ∃ m m' e oldo, w.cont? p = some (.map m) ∧ w'.cont? p = some (.map m') ∧
+    SetEffect m.toList m'.toList k e oldo ∧
+    (∀ o, oldo = some o → ∃ o', old' = some o' ∧ o'.pay = o.pay ∧ HandedBack w w' o) ∧
+    (oldo = none → old' = none) ∧
+    (∀ e0, v = .plain e0 → e = e0) ∧
+    (∀ x wr, v = .child x wr → e.pay = .ref x ∧ HandleOk w' x ∧
+      ∃ c, w'.cont? x = some c ∧ e.size = slotSize c wr)
+
+/-- what `mapRemove` did: `RemEffect`, the old value handed back -/
+def MapRemovedAt (w w' : World) (p : SlabID) (k : MKey) (rk : MKey) (rv' : Elem) : Prop :=
+  ∃ m m' rv, w.cont? p = some (.map m) ∧ w'.cont? p = some (.map m') ∧ rk = k ∧
+    RemEffect m.toList m'.toList k rv ∧ rv'.pay = rv.pay ∧ HandedBack w w' rv
 
 end World
 end Atree
